@@ -116,7 +116,7 @@ def run_one(lines, schedule):
             n_items = max(n_items, len(ob["runlog"]))
     for (tick, rl) in run.on_stop_runlogs:
         if isinstance(rl, str):
-            probs.append(("C15:runlog-raises-at-run-end:" + cause(rl.split(":", 1)[1]), f"producing the run log for the run-stopped message raised {rl} (tick {tick})"))
+            probs.append(("C15:runlog-raises:" + cause(rl.split(":", 1)[1]), f"producing the run log for the run-stopped message raised {rl} (tick {tick})"))
     run.cleanup()
     return probs, n_items
 
@@ -151,21 +151,22 @@ def explore_program(item):
 
 
 def corpus(ctx):
+    """(lines, with_deviations).  Openers with an empty body are left out (see pgen.no_empty_openers)."""
+    ok = pgen.no_empty_openers
+    sub = set(KINDS3)
     items = []
-    one_two = list(pgen.programs(KINDS, 2, depth=2))
-    for f in one_two:
-        items.append((pgen.render(f), len(pgen.kinds_flat(f)) == 1 or not ctx.quick))
+    for f in pgen.programs(KINDS, 2, depth=2):
+        if ok(f):
+            items.append((pgen.render(f), (not ctx.quick) or set(pgen.kinds_flat(f)) <= sub))
     if ctx.quick:
-        # deviations for the 2-statement programs over the sub-grammar
-        sub2 = set(pgen.forests(KINDS3, 2, 2))
-        items = [(l, d or (f in sub2)) for (l, d), f in zip(items, one_two)]
-        for f in pgen.forests(KINDS3, 3, 2):
-            items.append((pgen.render(f), False))
+        k3 = [k for k in KINDS3 if k != "Al"]
+        for f in pgen.forests(k3, 3, 2):
+            if ok(f):
+                items.append((pgen.render(f), len(f) == 1 and f[0][0] == "Wa"))   # Watch with a two-line body: with deviations
     else:
         for f in pgen.forests(KINDS, 3, 2):
-            items.append((pgen.render(f), False))
-        for f in pgen.forests(KINDS3, 3, 2):
-            items.append((pgen.render(f), True))
+            if ok(f):
+                items.append((pgen.render(f), set(pgen.kinds_flat(f)) <= sub))
     return items
 
 
